@@ -48,8 +48,11 @@ class Inconclusive(Exception):
     pass
 
 
+_T0 = time.time()
+
+
 def log(*a):
-    print(*a, flush=True)
+    print("[%6.1fs]" % (time.time() - _T0), *a, flush=True)
 
 
 def sh(cmd, timeout=None, cwd=None, env=None, check=False, quiet=True):
@@ -57,13 +60,20 @@ def sh(cmd, timeout=None, cwd=None, env=None, check=False, quiet=True):
     e = dict(os.environ)
     if env:
         e.update(env)
+    import signal
+    p = subprocess.Popen(cmd, shell=isinstance(cmd, str), cwd=cwd, env=e, stdout=subprocess.PIPE,
+                         stderr=subprocess.STDOUT, start_new_session=True)
     try:
-        p = subprocess.run(cmd, shell=isinstance(cmd, str), cwd=cwd, env=e,
-                           stdout=subprocess.PIPE, stderr=subprocess.STDOUT,
-                           timeout=timeout)
-        rc, out = p.returncode, p.stdout.decode("utf-8", "replace")
-    except subprocess.TimeoutExpired as ex:
-        rc, out = 124, (ex.stdout or b"").decode("utf-8", "replace") + "\n[timeout]\n"
+        o, _ = p.communicate(timeout=timeout)
+        rc, out = p.returncode, o.decode("utf-8", "replace")
+    except subprocess.TimeoutExpired:
+        # kill the whole process group (the shell and everything it started)
+        try:
+            os.killpg(p.pid, signal.SIGKILL)
+        except OSError:
+            pass
+        o, _ = p.communicate()
+        rc, out = 124, (o or b"").decode("utf-8", "replace") + "\n[timeout]\n"
     if check and rc != 0:
         raise Inconclusive("command failed rc=%d: %s\n%s" % (rc, cmd, out[-3000:]))
     return rc, out
@@ -269,11 +279,15 @@ def tlc_model(spec, cfg, rundir, must_take=(), **kw):
 
 def validate_trace(spec, cfg, trace_path, rundir, timeout=600, dfs=True, env=None, tag=None,
                    accepted_inv="NotAccepted"):
-    """Trace validation run. Convention: the trace spec has an invariant
-    NotAccepted == l <= Len(TraceLog); the trace is accepted iff TLC reports
-    exactly that invariant as violated. Any *other* violated invariant is a
-    property violation on the recorded execution; no violation at all means
-    the trace could not be matched (rejected).
+    """Trace validation run. Convention of the trace specs: a CONSTRAINT TrackL
+    records the largest position l reached in TLC register 1 (-workers 1) and a
+    POSTCONDITION prints it as <<"MAXL", n>>. The trace is accepted iff no
+    invariant is violated and MAXL = number of records + 1 (the whole log was
+    consumed on some path). (An invariant NotAccepted would also work but makes
+    TLC print the complete behaviour, which dominates the run time for long
+    logs.)  Any violated invariant is a property violation on the recorded
+    execution; MAXL short of the end means the record at position MAXL cannot
+    be matched (rejected).
     Returns (status, TLCResult) with status in 'accepted', 'rejected',
     'violated:<Inv>', 'error'."""
     e = {"TRACE": trace_path}
@@ -286,7 +300,13 @@ def validate_trace(spec, cfg, trace_path, rundir, timeout=600, dfs=True, env=Non
         return "accepted", r
     if r.violated:
         return "violated:" + r.violated, r
-    return "rejected", r
+    m = re.findall(r'<<"MAXL", (\d+)>>', r.out)
+    if not m:
+        return "error", r
+    with open(trace_path) as f:
+        nrec = sum(1 for line in f if line.strip())
+    r.maxl = int(m[-1])
+    return ("accepted" if r.maxl == nrec + 1 else "rejected"), r
 
 
 def last_trace_state(r):
@@ -356,7 +376,7 @@ class Check:
                 msg = "KNOWN-FINDING: property=%s %s" % (self.pid, k["what"])
                 if msg not in self.known_hits:
                     self.known_hits.append(msg)
-                    log(msg)
+                    print(msg, flush=True)
                 return False
         if len(self.violations) >= 8:
             # enough detail on disk; keep counting
@@ -368,7 +388,7 @@ class Check:
             json.dump({"property": self.pid, "signature": signature, "what": what,
                        "replay": replay_obj}, f, indent=1, default=str)
         self.violations.append({"signature": signature, "what": what, "replay": path})
-        log("VIOLATION property=%s replay=%s" % (self.pid, path))
+        print("VIOLATION property=%s replay=%s" % (self.pid, path), flush=True)
         log("  signature: %s\n  what: %s" % (signature, what))
         return True
 
